@@ -5,6 +5,7 @@ import M3d.Lemmas.BoundedPolyHull
 import M3d.Lemmas.BoundedPolyRect
 import M3d.Lemmas.BoundedRectSet
 import M3d.Lemmas.BoundedRectSetOrd
+import M3d.Lemmas.BoundedTriLine
 import Mathlib.Analysis.Real.Sqrt
 /-!
 # C03 — Solids never contain points outside their reported bounding box
@@ -731,5 +732,45 @@ example :
   decide +kernel
 
 end RectSetObjects
+
+/-! ## `toolbox3d.TriangularLine` / `TriangularPolygon` / `L1LineJoin` (line_join.go) -/
+section TriLine
+
+/-- `TriangularLine(th, p1, p2)` answers `false` outside the box it reports. -/
+theorem triline_bounded (th : K) (p1 p2 : Pt K) : Bounded (triLineS th p1 p2) := checked_bounded _ _ _
+
+/-- `TriangularLine` reports `Min ≤ Max` for every non-negative thickness. -/
+theorem triline_bounds_ordered (th : K) (hth : 0 ≤ th) (p1 p2 : Pt K) : Ordered (triLineS th p1 p2) := by
+  intro i _
+  simp only [triLineS, checkedS, triBox, psub_get, padd_get, pmin_get, pmax_get]
+  have : min (p1 i) (p2 i) ≤ max (p1 i) (p2 i) := min_le_max
+  rcases fin3 i with rfl | rfl | rfl <;> simp only [get0, get1, get2] <;> linarith
+
+/-- **`wrapper_does_not_cut_triline`.**  The box `p1.Min(p2) - (th,th,th) .. p1.Max(p2) + (th,th,th)` that
+`TriangularLine` puts in front of its membership test (`triDef`: projection between the endpoints and L1
+distance to the segment `< th`, the L1 distance being the minimum over the candidates of `Segment.ClosestL1`)
+does not cut: for every segment — oblique ones included, whose flat end caps and L1 ridge reach up to `th`
+past the hull of the endpoints on each axis — and every point, the solid answers exactly what the definition
+says.  This is the answer kind `triline` demands of the real `TriangularLine` (and of the one-segment
+`TriangularPolygon`), so a box with a smaller padding shows up as a point of the definition answered `false`. -/
+theorem wrapper_does_not_cut_triline (th : K) (p1 p2 c : Pt K) :
+    (triLineS th p1 p2).f c = triDef th p1 p2 c := by
+  cases h : triDef th p1 p2 c
+  · simp [triLineS, checkedS, h]
+  · exact (checked_f _ _ _ _).mpr ⟨triDef_in_box th p1 p2 c h, h⟩
+
+/-- the reach of the shape past the hull of the endpoints is really needed: every point of the definition
+is within `th` of the hull on each axis (so the padding `th` suffices) … -/
+theorem triline_def_in_box (th : K) (p1 p2 c : Pt K) (h : triDef th p1 p2 c = true) :
+    InBox true (triBox th p1 p2) c := triDef_in_box th p1 p2 c h
+
+/-- … non-vacuity: on the 45° segment `(0,0,0)–(1,1,0)` with `th = 1` the end-cap point `(-2/5, 2/5, 0)` is in
+the definition and contained, although it is `2/5 > 1 - 1/√2` past the endpoint hull on the x axis. -/
+example : triDef (1 : ℚ) (mk3 0 0 0) (mk3 1 1 0) (mk3 (-2/5) (2/5) 0) = true ∧
+    (triLineS (1 : ℚ) (mk3 0 0 0) (mk3 1 1 0)).f (mk3 (-2/5) (2/5) 0) = true ∧
+    (triLineS (1 : ℚ) (mk3 0 0 0) (mk3 1 1 0)).f (mk3 (-2/5) (-2/5) 0) = false := by
+  decide +kernel
+
+end TriLine
 
 end M3d.C03
